@@ -392,13 +392,6 @@ int parse_instruction_6502(AsmContext *asm_context, char *instr)
           return -1;
         }
 
-        // forward label
-        if (num == 0)
-        {
-          int worst_case = asm_context->memory_read(asm_context->address);
-          if (worst_case == 1) { size = 16; }
-        }
-
         if (size == 8)
         {
           if (num > 0xff)
